@@ -81,6 +81,10 @@ func (c *Config) UnmarshalBinary(data []byte) error {
 	if err := cbor.Unmarshal(data, &cm); err != nil {
 		return fmt.Errorf("config: %w", err)
 	}
+	// a CBOR null decodes "successfully" into a nil pointer, and absent fields stay nil
+	if cm == nil || cm.ECDSA == nil || cm.ElGamal == nil || cm.P == nil || cm.Q == nil {
+		return errors.New("config: missing field")
+	}
 
 	// check ECDSA, ElGamal
 	if cm.ECDSA.IsZero() || cm.ElGamal.IsZero() {
